@@ -2,7 +2,7 @@
 from .. import scriptprop
 
 ID = "C08"
-GEN = ['Array2D.lean']   # regenerated kernels this property's theorems are about (tie 4B)
+GEN = ["Array2D.lean", "Array2DShapes.lean"]   # regenerated from the source on every run (tie 4B): kernels / call shapes / function shapes
 RULE = ("exhaustive: every shape 0..5 x 0..5 with every coordinate in -1..w / -1..h for set/get/row/rowset/span/spanset, all four corner orders of fill, clone-then-mutate, "
         "filled and jagged constructors (rows shorter/longer, more/fewer rows than the array); plus random shapes up to 40x40 with random scripts (thorough: more); non-trivial = w*h >= 2 and w != h or any")
 ASSUMPTIONS = ["liveness of Row/RowSpan windows and independence of Clone are observed (write through the window / mutate the clone), not proved", "String formatting (observed for int, string and float64 cells)"]
